@@ -65,6 +65,7 @@ def run(ctx):
     cases = {
         "plain logic": {"relevant": "${a} > 1", "required": "yes", "readonly": "TRUE", "constraint": ". > 0 and . < ${b}", "calculate": "${a} + 1", "type": "int"},
         "messages": {"type": "string", "jr:constraintMsg": "Too small", "jr:requiredMsg": "Needed because ${a}", "jr:noAppErrorString": "no app"},
+        "messages with references": {"type": "string", "jr:constraintMsg": "Too small for ${a}", "jr:requiredMsg": "Needed because ${a}", "jr:noAppErrorString": "no app for ${a}"},
         "translated messages": {"type": "string", "jr:constraintMsg": {"en": "Too small", "fr": "Trop petit"}, "jr:requiredMsg": {"en": "R"}, "jr:noAppErrorString": {"en": "n"}},
         "custom and parameters": {"type": "binary", "orx:max-pixels": "640", "odk:quality": "low", "entities:saveto": "prop", "foo": "bar", "required": "no", "relevant": "false"},
     }
@@ -201,5 +202,32 @@ def run(ctx):
     dec = [c for c in walk_own(pr.node) if isinstance(c, ast.Call) and call_name(c) == "update" and "decimal" in norm(c)]
     r5.check(len(dec) == 1 and any("has_float" in t for t in guard_texts(dec[0], stop=pr.node)) and const_str(ctx, pr.module, dec[0].args[0]) == (True, {"type": "decimal"}),
              "range:decimal", "a range with a fractional start/end/step gets bind type decimal (else the table's int)", pr.loc())
+    # every subset / order / typing of the three range parameters: decimal as soon as one is fractional, and the
+    # control receives start, end, step with the documented defaults
+    import itertools as _it
+    from ..interp import Raised as _Raised
+    n_rng = 0
+    bad_rng = []
+    for k in range(4):
+        for names in _it.permutations(("start", "end", "step"), k):
+            for typing in _it.product(("int", "dec"), repeat=k):
+                params = {n: ({"start": "2", "end": "9", "step": "3"}[n] if t == "int" else {"start": "0.5", "end": "9.5", "step": "1.5"}[n]) for n, t in zip(names, typing)}
+                it = ctx.interp("C05.R5", hooks={"fnname:validate": lambda i, a, k_, n_: (k_.get("parameters") if "parameters" in k_ else a[0])})
+                it.reset([])
+                try:
+                    out = it.call_function(pr, [], {"row": {"type": "range", "name": "r"}, "parameters": dict(params)}, None, pr.node)
+                except _Raised as e:
+                    bad_rng.append((params, f"raises {e.exc_name}"))
+                    continue
+                n_rng += 1
+                want_type = "decimal" if "dec" in typing else None
+                got_type = (out.get("bind") or {}).get("type") if isinstance(out, dict) else "?"
+                got_params = out.get("parameters") if isinstance(out, dict) else None
+                want_params = {**{"start": "1", "end": "10", "step": "1"}, **params}
+                if got_type != want_type or got_params != want_params:
+                    bad_rng.append((params, f"bind type {got_type!r} (expected {want_type!r}), parameters {got_params}"))
+    r5.check(not bad_rng and n_rng >= 70, "range[all parameter subsets, orders, typings]",
+             "bind type is decimal iff some parameter is fractional (else the table's int); start/end/step default to 1/10/1", pr.loc(),
+             why_fail="; ".join(f"{p} -> {w}" for p, w in bad_rng[:3]))
     rules.append(r5)
     return rules
